@@ -28,13 +28,13 @@ Leaf(t, a, v, m) == Node(t, a, v, m, 0, NoE, NoE)
 Un(t, a, v, n, e) == Node(t, a, v, <<>>, n, e, NoE)
 Bin(t, e1, e2) == Node(t, CZero, <<>>, <<>>, 0, e1, e2)
 
-LeafKinds == {"id", "scale", "mat", "mulvec", "zero", "inner", "sq", "const", "shift", "l2sq", "l1", "smul", "swap"}
-LinearLeaves == {"id", "scale", "mat", "mulvec", "zero", "inner", "smul", "swap"}
+LeafKinds == {"id", "scale", "mat", "mulvec", "zero", "inner", "sq", "const", "shift", "l2sq", "l1", "smul", "swap", "rpart", "linfn"}
+LinearLeaves == {"id", "scale", "mat", "mulvec", "zero", "inner", "smul", "swap", "rpart", "linfn"}
 IsLeaf(e) == e.t \in LeafKinds
 
 (* -------------------------- typing ------------------------------------- *)
 LeafDom(t) == IF t = "smul" THEN "S" ELSE "V"
-LeafRan(t) == IF t \in {"inner", "l2sq", "l1"} THEN "S" ELSE "V"
+LeafRan(t) == IF t \in {"inner", "l2sq", "l1", "linfn"} THEN "S" ELSE "V"
 
 RECURSIVE Dom(_)
 Dom(e) == IF IsLeaf(e) THEN LeafDom(e.t)
@@ -85,6 +85,8 @@ LeafEval(e, x) ==
     [] e.t = "l2sq"   -> <<WNormSq(x)>>
     [] e.t = "l1"     -> <<WNorm1(x)>>
     [] e.t = "smul"   -> VScal(x[1], e.v)
+    [] e.t = "rpart"  -> x                       \* RealPart on a REAL space (returns its input object): identity
+    [] e.t = "linfn"  -> <<WInner(x, e.v)>>       \* a linear FUNCTIONAL-class leaf x -> <x, v>
     [] e.t = "swap"   -> <<x[2], x[1]>>          \* a user-defined operator (in-place only, not alias-safe)
 
 RECURSIVE Eval(_, _)
@@ -135,7 +137,7 @@ Tame(e) == PowCount(e) <= 1 /\ (Deg(e) <= 8 \/ Deg(e) >= 99)
 \* constructions; only for those is "f + scalar" defined (FunctionalScalarSum).
 RECURSIVE IsFunctional(_)
 IsFunctional(e) ==
-  IF IsLeaf(e) THEN e.t \in {"l2sq", "l1"}
+  IF IsLeaf(e) THEN e.t \in {"l2sq", "l1", "linfn"}
   ELSE CASE e.t \in {"neg", "lscal", "rscal", "rdiv", "addscal", "rvec"} -> IsFunctional(e.l)
          [] e.t \in {"sum", "sub"} -> IsFunctional(e.l) /\ IsFunctional(e.r)
          [] e.t = "comp" -> IsFunctional(e.l)
